@@ -538,6 +538,8 @@ def render_ini(spec, seps=None):
         for k, v in s["entries"]:
             sep = " : " if (n % 3) else " = "
             n += 1
+            if "\n" in v:
+                v = v.replace("\n", "\n    ")      # continuation lines of a multi-line value are indented
             lines.append("%s%s%s" % (k, sep, v))
         lines.append("")
     return "\n".join(lines) + "\n"
